@@ -79,6 +79,8 @@ ObsOKFor(g, obs) ==
     /\ Req(<<"obs-routes", IF Has(obs, "routes") THEN {f \in DOMAIN obs.routes : obs.routes[f] = FALSE} ELSE {}>>, Has(obs, "routes") => AllTrue(obs.routes))
     /\ Req(<<"obs-rt", IF Has(obs, "rt") THEN {f \in DOMAIN obs.rt : obs.rt[f] = FALSE} ELSE {}>>, Has(obs, "rt") => AllTrue(obs.rt))
     /\ (Has(obs, "exact") /\ ~IsEmpty(g)) => ExactOK(g, obs.exact)
+    /\ Req(<<"obs-grad", IF Has(obs, "grad") THEN {f \in DOMAIN obs.grad : obs.grad[f] = FALSE} ELSE {}>>, Has(obs, "grad") => AllTrue(obs.grad))
+    /\ Req(<<"obs-twin", IF Has(obs, "twin") THEN {f \in DOMAIN obs.twin : obs.twin[f] = FALSE} ELSE {}>>, Has(obs, "twin") => AllTrue(obs.twin))
 
 \* C08: once limits are stored, no needed point lies, in a limited dimension, on a level above the limit.
 \* Points loaded before the limits were (re)set may already exceed them; their descendants in OTHER directions
